@@ -8,6 +8,18 @@ reported finalised height), OnlySetHeadWrites, Monotone, RestartIsNoOp (Restart 
 the same database); plus the same model WITHOUT the timing
 assumption FinalityAfterNotices as an expected violation (documented observation).
 
+Storage faults: the Put of the L1-head record may fail (MaxWriteFail). The property is read
+conditionally - a client that is still running after a completed setL1Head has the best merged
+finalised event recorded (RunningImpliesRecorded); a failed write may stop the client
+(StopOnlyOnWriteFailure, then Restart re-scans), never leave it running on a stale record; what the
+L1-head feed announced is what is recorded (AnnouncedIsRecorded). Three expected-violation models:
+L1_x_swallow (tick path logs the error and goes on), L1_x_catchupwrite (Run treats the write error
+at the end of catch-up like a failed log query: the code before its repair, finding
+`l1:head-write-failed:running-with-stale-record:catchup`), L1_x_announce (feed before write).
+The recorded runs use the shared fault-injecting store under the real Blockchain; the trace model
+follows the status of that finding in known_findings.json ("known": the code as it was; fixed or
+not listed: the repaired design).
+
 Binding: trace validation. The engine runs the REAL l1.Client against (mode 1) a gated scripted
 L1StateProvider and (mode 2) the REAL GethL1StateProvider connected by websocket to an in-process
 go-ethereum rpc.Server that serves the same scripted node (gates in the rpc handlers), and a real
@@ -21,7 +33,16 @@ import re
 import vlib
 
 FAMILY = "l1"
-CLIENT_EVENTS = ("CallChainID", "CallLatest", "CallFilter", "CallFin", "CallWatch", "NewHead", "Read")
+CLIENT_EVENTS = ("CallChainID", "CallLatest", "CallFilter", "CallFin", "CallWatch", "NewHead", "Read",
+                 "Feed", "WriteFail", "Stopped")
+CATCHUP_WRITE_KEY = "l1:head-write-failed:running-with-stale-record:catchup"
+
+
+def trace_cfg(ctx):
+    """The trace model describes the code as it is: Run swallowing a failed head write at the end of catch-up is
+    modelled only while that finding is listed as known; fixed / not listed means the repaired design."""
+    known = any(k.get("status") == "known" and vlib.key_matches(k["key"], CATCHUP_WRITE_KEY) for k in ctx.known)
+    return "L1Trace_faithful.cfg" if known else "L1Trace.cfg"
 
 
 def split_runs(events):
@@ -50,8 +71,9 @@ def validate(ctx, events, label):
         with open(path, "w") as f:
             for r in todo:
                 for e in r:
+                    e.setdefault("w", 0)   # runs recorded before the write-fault dimension existed
                     f.write(json.dumps(e) + "\n")
-        ok, res = ctx.tlc_trace(FAMILY, "L1Trace.tla", "L1Trace.cfg", path, timeout=1800)
+        ok, res = ctx.tlc_trace(FAMILY, "L1Trace.tla", trace_cfg(ctx), path, timeout=1800)
         if ok:
             accepted += len(todo)
             break
@@ -111,13 +133,23 @@ def run(ctx):
 
     thorough = not ctx.quick()
     r = ctx.tlc_check(FAMILY, "L1.tla", "L1_quick.cfg", timeout=1500, coverage=thorough,
-                      label="L1: 3 blocks, 3 events, 1 reorg, 1 failure, 1 restart, chunk {1,2,10}")
+                      label="L1: 3 blocks, 3 events, 1 reorg, 1 failure, 1 write failure, 1 restart, chunk {1,2,10}")
     if thorough:
         vlib.require_actions_covered(r)
         ctx.tlc_check(FAMILY, "L1.tla", "L1_thorough.cfg", timeout=3000,
-                      label="L1: 4 blocks, 3 events, 1 reorg, 1 failure, 1 restart, chunk {1,2,10}")
+                      label="L1: 4 blocks, 3 events, 1 reorg, 1 failure, 1 write failure, 1 restart, chunk {1,2,10}")
         ctx.tlc_check(FAMILY, "L1.tla", "L1_thorough2.cfg", timeout=3000,
-                      label="L1: 3 blocks, 3 events, 2 reorgs, 2 failures, no restart, chunk {1,2,10}")
+                      label="L1: 3 blocks, 3 events, 2 reorgs, 2 failures, 1 write failure, no restart, chunk {1,2,10}")
+    # the write-fault mechanisms that can fail, each as a model that MUST violate its property
+    for cfg, prop, label in (
+            ("L1_x_swallow.cfg", "RunningImpliesRecorded", "tick path swallows a failed write of the head"),
+            ("L1_x_catchupwrite.cfg", "RunningImpliesRecorded", "Run treats a failed write at the end of catch-up as best effort (code before repair)"),
+            ("L1_x_announce.cfg", "AnnouncedIsRecorded", "head announced on the feed before it is written")):
+        x = ctx.tlc_check(FAMILY, "L1.tla", cfg, timeout=600, expect_violation=True,
+                          label="L1 mutant model: %s (expected violation)" % label)
+        if x["violated"] != prop:
+            raise vlib.Broken("%s no longer violates %s (%s)" % (cfg, prop, x["violated"]))
+        ctx.tlc_runs[-1]["expected_violation"] = prop
     h = ctx.tlc_check(FAMILY, "L1.tla", "L1_lag.cfg", timeout=600, expect_violation=True,
                       label="L1 without the timing assumption FinalityAfterNotices (expected violation)")
     if h["violated"] != "StoredFinalisedCanonical":
@@ -132,8 +164,10 @@ def run(ctx):
     ctx.absorb(res, "l1", "TestL1Record")
     if st.get("broken_runs") and not ctx.violations:
         raise vlib.Broken("%s recorded runs hit a harness timeout / quiescence failure: %s" % (st["broken_runs"], res.get("samples")))
-    if not ctx.violations and (not st.get("setheads_checked") or not st.get("reorgs_with_notices") or not st.get("filter_chunks")
-                               or not st.get("restarts") or not st.get("feed_heads_seen")):
+    if not ctx.violations and (
+            not st.get("setheads_checked") or not st.get("reorgs_with_notices") or not st.get("filter_chunks")
+            or not st.get("restarts") or not st.get("feed_heads_seen")
+            or not st.get("write_faults_fired") or not st.get("stops_after_write_failure") or not st.get("restarts_after_stop")):
         raise vlib.Broken("recorded runs are vacuous: %s" % st)
     with open(os.path.join(ctx.scratch, "l1trace.ndjson")) as f:
         events = [json.loads(x) for x in f if x.strip()]
@@ -193,6 +227,21 @@ def run(ctx):
     if not rej2 or rej2[0][2]["ev"] != "NewHead":
         raise vlib.Broken("binding self-test: a run with a corrupted NewHead event was accepted")
     ctx.coverage["selftest"] = "corrupted NewHead rejected at event %d" % (rej2[0][1] + 1)
+    # ... and so must a run whose client "went on" after a failed write: the Stopped event and the
+    # restart that follows are cut out, the new client's calls then read as calls of the old one
+    probe = None
+    for r_ in runs:
+        idx = [i for i, e in enumerate(r_) if e["ev"] == "Stopped"]
+        if idx and r_[idx[0] + 2]["ev"] == "Restart":
+            probe = [dict(e) for e in r_[:idx[0]]] + [dict(e) for e in r_[idx[0] + 3:]]
+            break
+    if probe is None:
+        raise vlib.Broken("no conforming run stopped after a failed write of the head")
+    acc3, rej3 = validate(ctx, probe, "selftest2")
+    if not rej3 or not rej3[0][2]["ev"].startswith("Call"):
+        raise vlib.Broken("binding self-test: a run whose client keeps calling after a failed head write was accepted (%s)" % (rej3[:1],))
+    ctx.coverage["selftest_write_failure"] = "client running on after a failed write rejected at event %d (%s)" % (
+        rej3[0][1] + 1, rej3[0][2]["ev"])
 
     # directed schedule outside the timing assumption: an observation, never a verdict
     lag = ctx.run_engine(binary, "TestL1LagScenario", {}, timeout=300)
@@ -212,12 +261,16 @@ def run(ctx):
         "taken from the client's channel (Ethereum finality lags the head by ~13 min; a notice is consumed within microseconds)",
         "'delivered' is read as 'merged into the client's buffer': an update still queued in the channel when setL1Head runs "
         "is not yet counted (the select loop may serve the ticker first)",
-        "persisting the head (Blockchain.SetL1Head on the memory database) does not fail",
+        "storage faults: a Put of the L1-head record may fail (at most %d per run, injected by the shared fault-injecting "
+        "store); the property is read conditionally: a client still running after a completed setL1Head has the best merged "
+        "finalised event recorded; a failed write may stop the client (the node goes down with the service and is started "
+        "again); reads of the record do not fail (the client never reads it)" % 2,
     ]
     return ctx.finish(
         "model_checking",
-        "exhaustive TLC on L1.tla; seeded scheduler scripts (mine / finalise / reorg / push / subscription failure / call "
-        "failure, catch-up chunk size in {1,2,3,10}, three poll intervals) drive the real l1.Client through a gated provider "
+        "exhaustive TLC on L1.tla (incl. failed writes of the head record, client stop and restart); seeded scheduler scripts "
+        "(mine / finalise / reorg / push / subscription failure / call failure / failed Put of the head record at a setL1Head, "
+        "catch-up chunk size in {1,2,3,10}, three poll intervals) drive the real l1.Client through a gated provider "
         "and, for a smaller slice, through the real GethL1StateProvider over an in-process go-ethereum rpc server; "
         "every run is validated by TLC against L1.tla (trace validation with silent Consume) and by a direct monitor; "
         "non-trivial = the run contains at least one setL1Head whose database result was compared")
